@@ -714,6 +714,7 @@ class Engine:
         if c == 'true': return True
         if c == 'false': return False
         if c == '()': return UNIT
+        if c == '[]': return Agg('array', [])
         if c.startswith('"'):
             v = mkstr(unescape(c[1:-1])); self._LIT[c] = v; return v
         if c.startswith('b"'): return Agg('bytes', [ord(x) for x in unescape(c[2:-1])])
